@@ -1,12 +1,119 @@
 import ScryerModel.Proofs.Toplevel
-/-! # C29 — Toplevel answers are faithful and re-executable -/
+/-!
+# C29 — Toplevel answers are faithful and re-executable
+
+Theorems about `Model/Toplevel.lean`: (A) the protocol of `run_query_goal/4`,
+`toplevel_query_callback/3`, `read_input/2` as a function from the engine's trace and the keys typed
+to the transcript; (B) the construction of a leaf answer (`gather_equations/3`,
+`extend_var_list/4`). The real toplevel is tied to the model by `vlib/props/C29.py`.
+-/
 namespace Scryer
 open Toplevel
 
-/-- When every answer is requested (the keyboard only ever says `;`), the answers written are exactly the
-solutions the engine delivers, in order. -/
+/-- (A1) When every answer is requested (the keyboard only ever says `;`), the answers written are
+exactly the solutions the engine delivers, in order. -/
 theorem C29_answers_are_the_solutions {α ε : Type} (t : Trace α ε) :
     answersOf (transcript t []) = t.sols :=
   answersOf_run_nil t {}
+
+/-- (A2) answer-count law: n solutions give n answer blocks. -/
+theorem C29_answer_count {α ε : Type} (t : Trace α ε) :
+    (answersOf (transcript t [])).length = t.sols.length := by
+  rw [C29_answers_are_the_solutions]
+
+/-- (A3) The key `a` requests all answers whatever is typed afterwards: once `'$report_all'` is set the
+keyboard is not read again. -/
+theorem C29_all_key_enumerates_everything {α ε : Type} (t : Trace α ε) (st : St) (ks : List Key)
+    (h : st.all = true) : answersOf (run t st ks) = t.sols :=
+  answersOf_run_all t st ks h
+
+/-- (A4) `false` is written iff the enumeration ended with the failure of the query … -/
+theorem C29_false_iff_query_failed {α ε : Type} (t : Trace α ε) :
+    hasNo (transcript t []) = t.endsFail :=
+  hasNo_run_nil t {}
+
+/-- (A5) … and after at least one answer that can only happen when the last solution left a choice
+point (`B0 \== B`): "the answer list ends with false only when the last solution left choice points". -/
+theorem C29_false_only_after_choice_point {α ε : Type} (t : Trace α ε)
+    (hno : hasNo (transcript t []) = true) (hsol : answersOf (transcript t []) ≠ []) :
+    t.lastCp = some true := by
+  rw [C29_false_iff_query_failed] at hno
+  rw [C29_answers_are_the_solutions] at hsol
+  exact lastCp_of_endsFail t hno hsol
+
+/-- (A6) The transcript determines the solution sequence: reading it back gives the engine's trace
+(up to what follows a solution that left no choice point, which the toplevel cuts away). -/
+theorem C29_transcript_determines_trace {α ε : Type} (t : Trace α ε) :
+    parse (transcript t []) = some t.canon :=
+  parse_transcript_nil t
+
+/-- (A7) formatting is injective on the structure level. -/
+theorem C29_transcript_injective {α ε : Type} (t t' : Trace α ε)
+    (h : transcript t [] = transcript t' []) : t.canon = t'.canon := by
+  have h1 := C29_transcript_determines_trace t
+  have h2 := C29_transcript_determines_trace t'
+  rw [h] at h1
+  rw [h1] at h2
+  exact Option.some.inj h2
+
+/-- (A8) `.`/RETURN after an answer stops the enumeration: nothing of the rest of the trace is shown. -/
+theorem C29_stop_key {α ε : Type} (a : α) (rest : Trace α ε) (ks : List Key) :
+    transcript (.sol a true rest) (.stop :: ks) = [.indent, .ans a false, .stopped] := by
+  simp [transcript, run, first, readInput, readKeys]
+
+/-- (B1) Every equation of a leaf answer is a binding of a query variable (an entry of the query's
+`variable_names` list after the solution) — never one of the fabricated `_A = …` entries. -/
+theorem C29_equations_are_query_bindings (varNames : VarList) (resGoals : List Term) :
+    ∀ p ∈ (leaf varNames resGoals).bindings, p ∈ varNames := by
+  intro p hp
+  simp only [leaf] at hp
+  have hsub := gatherEquations_sub _ _ _ p hp
+  simp only [extendVarList] at hsub
+  rcases List.mem_append.mp hsub with h | h
+  · exact h
+  · obtain ⟨v, hv, hnc, _⟩ := extendVarList__new _ _ _ p h
+    have := gatherEquations_var_orig _ _ _ p hp v hv
+    have hc := containsVar_of_mem_gatherQueryVars varNames v (by simpa using this)
+    rw [hc] at hnc
+    cases hnc
+
+/-- (B2) Every query variable bound to a non-variable term is shown with exactly that binding. -/
+theorem C29_every_binding_is_shown (varNames : VarList) (resGoals : List Term)
+    (p : String × Term) (hp : p ∈ varNames) (hnv : ∀ w, p.2 ≠ .var w) :
+    p ∈ (leaf varNames resGoals).bindings := by
+  simp only [leaf]
+  exact gatherEquations_keeps _ _ _ (Nat.le_refl _) p (by simp [extendVarList, hp]) hnv
+
+/-- (B3) The names under which an answer is written are the query's own names followed by fabricated
+names; a fabricated name never coincides with a name of the query and stands for a variable that has
+no name in the query ("variables in answers get names distinct from the query's"). -/
+theorem C29_fabricated_names_are_fresh (varNames : VarList) (resGoals : List Term) :
+    ∀ p ∈ (leaf varNames resGoals).names,
+      p ∈ varNames ∨ (containsName varNames p.1 = false ∧ ∃ v, p.2 = .var v ∧ containsVar varNames v = false) := by
+  intro p hp
+  simp only [leaf, extendVarList] at hp
+  rcases List.mem_append.mp hp with h | h
+  · exact Or.inl h
+  · obtain ⟨v, hv, hnc, _⟩ := extendVarList__new _ _ _ p h
+    exact Or.inr ⟨extendVarList__fresh _ _ _ p h, v, hv, hnc⟩
+
+/-! ### witnesses (non-vacuity, branches reached) -/
+
+/-- three answers, the last one deterministic: no `false`. -/
+example : (transcript (.sol 1 true (.sol 2 true (.sol 3 false .fail)) : Trace Nat Unit) []).length = 7 := by decide
+/-- a choice point left after the last solution: `;  false.` -/
+example : hasNo (transcript (.sol 1 true .fail : Trace Nat Unit) []) = true := by decide
+example : (Trace.sol 1 true .fail : Trace Nat Unit).lastCp = some true := by decide
+/-- `f` after the first answer shows answers up to the fifth, then reads the keyboard again (`.`). -/
+example : answersOf (transcript (.sol 1 true (.sol 2 true (.sol 3 true (.sol 4 true (.sol 5 true (.sol 6 true .fail))))) :
+    Trace Nat Unit) [.five, .stop]) = [1, 2, 3, 4, 5] := by decide
+/-- `X = Y, Y = Z`: one variable under three names gives two equations (`X = Y, Z = X`; the driver
+shows them, see notes/design/C29.md). -/
+example : (gatherEquations 3 [("X", .var "h"), ("Y", .var "h"), ("Z", .var "h")] ["h", "h", "h"]).map Prod.fst
+    = ["X", "Z"] := by decide
+/-- an unbound, unshared query variable gives no equation: `true`. -/
+example : (gatherEquations 1 [("X", .var "h")] ["h"]).length = 0 := by decide
+/-- a non-variable binding is always an equation (B2 is not vacuous). -/
+example : (gatherEquations 1 [("X", .atom "a")] []).map Prod.fst = ["X"] := by decide
 
 end Scryer
